@@ -8,7 +8,9 @@ Transcribes, for the code **with** `fixes/C10-accept-connected-first.patch`,
 * `ListeningConnection.accept` (173-189: CONNECTED is reported, then `on_peer_accepted` runs);
 * `DataConnection.connect` (219-262) / `disconnect` (264-298: early return when CLOSING/CLOSED, CLOSING,
   close the writer, wait, `finally` CLOSED);
-* `_read` / `_send` error arms (342-384, 467-486) and `send_message` (488-521);
+* `_read` / `_send` error arms (342-384, 467-486), `send_message` (488-521) and `queue_message` (452-459: a
+  task that runs `send_message`, listed in `_queued_messages` until it is done; `disconnect` cancels the
+  listed tasks right after it reported CLOSING, 277 / 581-583);
 * `_message_reader_loop` (312-340);
 * the registry sites of network/network.py: append on creation (`_make_direct_connection`,
   `_handle_connect_to_peer`, `on_peer_accepted`), removal on CLOSED (`_on_peer_connection_state_changed`);
@@ -61,6 +63,11 @@ inductive Closer
 inductive AttRes | ok | fail | cancelled
   deriving DecidableEq, Repr
 
+/-- how a `queue_message` task ended: `send_message` returned / raised ConnectionWriteError / the task was
+cancelled by `_cancel_queued_messages` -/
+inductive QRes | ret | err | cancelled
+  deriving DecidableEq, Repr
+
 inductive Ev
   | st (s : CState) (r : Reason)   -- ConnectionStateChangedEvent
   | delivered                      -- MessageReceivedEvent carrying this connection
@@ -69,6 +76,7 @@ inductive Ev
   | cc                             -- `CannotConnect` for this connection's ticket written to the server
   | attRes (r : AttRes)            -- how the attempt task ended
   | sendRes (returned : Bool)      -- a `send_message` call returned (true) / raised ConnectionWriteError
+  | queueRes (r : QRes)            -- a `queue_message` task ended
   deriving DecidableEq, Repr
 
 structure K where
@@ -81,6 +89,7 @@ structure K where
   sock : Bool           -- `_writer` present and the socket not closed
   closer : Closer
   sendParked : Bool     -- a `send_message` parked in `drain()`
+  qParked : Bool        -- a `queue_message` task parked in `drain()` (pending output, listed in `_queued_messages`)
   registered : Bool     -- member of `Network.peer_connections`
   deriving DecidableEq, Repr
 
@@ -99,11 +108,13 @@ inductive COp
   | frame (good : Bool)          -- established: a frame arrives (decodable or not)
   | partialEof                   -- a partial frame, then EOF
   | eof | reset | readTimeout
-  | disconnect                   -- somebody calls `connection.disconnect(REQUESTED)`
+  | disconnect (r : Reason)      -- somebody calls `connection.disconnect(r)`
   | closeDone                    -- `wait_closed()` returns (or its 5 s timer fires)
   | send (m : SendMode)          -- somebody calls `send_message`
   | drainOk                      -- parked `drain()` calls return
   | sendTimeout (ofAttempt : Bool)
+  | queue (m : SendMode)         -- somebody calls `queue_message`; the task runs up to its first suspension
+  | queueTimeout                 -- the 10 s send timer of the parked `queue_message` task fires
   | restart                      -- `connect()` is called again (server connection only)
   deriving DecidableEq, Repr
 
@@ -122,7 +133,9 @@ def wake (k : K) : K × List Ev :=
   let k := { k with reader := false, att := if k.att = .awaitInit then .idle else k.att }
   let (k, e1) := if k.att = .sendingInit then attemptOver k .fail else (k, [])
   let (k, e2) := if k.sendParked then ({ k with sendParked := false }, [Ev.sendRes false]) else (k, [])
-  (k, e1 ++ e2)
+  -- `_cancel_queued_messages` (connection.py:277): the parked queue task is cancelled
+  let (k, e3) := if k.qParked then ({ k with qParked := false }, [Ev.queueRes .cancelled]) else (k, [])
+  (k, e1 ++ e2 ++ e3)
 
 /-- what the task that ran `disconnect` does once CLOSED has been reported -/
 def cont (k : K) : Closer → K × List Ev
@@ -140,6 +153,17 @@ def beginClose (k : K) (r : Reason) (who : Closer) : K × List Ev :=
   else
     let (k, ec) := cont { k with st := .closed, registered := false } who
     (k, [.st .closing r, .st .closed r] ++ ew ++ ec)
+
+/-- `disconnect(r)` run by the `queue_message` task itself (`_send` error arms, connection.py:478-484): after
+CLOSING `_cancel_queued_messages` cancels the very task that is running `disconnect`.  When `wait_closed()`
+does not suspend the task never sees the cancellation: CLOSED, then `ConnectionWriteError`.  When it does
+suspend, the pending cancellation is delivered there at once and the `finally` arm reports CLOSED without
+waiting for the transport (the task ends cancelled).  (`k.qParked` here is ANOTHER queued send that is parked: it
+is cancelled like every listed task; the callers clear the flag when the parked task itself is the one closing.) -/
+def beginCloseQ (k : K) (r : Reason) : K × List Ev :=
+  let (k, ew) := wake { k with st := .closing, sock := false }
+  ({ k with st := .closed, registered := false },
+   [.st .closing r] ++ ew ++ [.st .closed r, .queueRes (if k.slow then .cancelled else .err)])
 
 /-- `disconnect(r)` on a CONNECTING connection: there is no writer, nothing to wait for -/
 def closeConnecting (k : K) (r : Reason) : K × List Ev :=
@@ -204,12 +228,14 @@ def stepK (k : K) : COp → Option (K × List Ev)
     if ¬ k.sock then none
     else if k.reader ∨ k.att = .awaitInit then some (beginClose k .readError .other)
     else if k.att = .sendingInit then some (beginClose { k with att := .idle } .writeError .attempt)
+    else if k.sendParked ∧ k.qParked then none     -- which drain waiter wakes first is not part of the control state
     else if k.sendParked then some (beginClose { k with sendParked := false } .writeError .sender)
+    else if k.qParked then some (beginCloseQ { k with qParked := false } .writeError)
     else none
-  | .disconnect =>
+  | .disconnect r =>
     match k.st with
-    | .connecting => some (closeConnecting k .requested)
-    | .connected => some (beginClose k .requested .other)
+    | .connecting => some (closeConnecting k r)
+    | .connected => some (beginClose k r .other)
     | .closing | .closed => some (k, [])
     | .uninit => none
   | .closeDone =>
@@ -228,15 +254,28 @@ def stepK (k : K) : COp → Option (K × List Ev)
       | .block => if k.sendParked then none else some ({ k with sendParked := true }, [.wrote])
       | .fail => some (beginClose k .writeError .sender)
   | .drainOk =>
-    if ¬ (k.sendParked ∨ k.att = .sendingInit) then none
+    if ¬ (k.sendParked ∨ k.qParked ∨ k.att = .sendingInit) then none
     else
       let a := if k.att = .sendingInit then finalizeOut k else (k, [])
-      some (andThen a fun k => if k.sendParked then ({ k with sendParked := false }, [.sendRes true]) else (k, []))
+      let a := andThen a fun k => if k.sendParked then ({ k with sendParked := false }, [.sendRes true]) else (k, [])
+      some (andThen a fun k => if k.qParked then ({ k with qParked := false }, [.queueRes .ret]) else (k, []))
   | .sendTimeout ofAttempt =>
     if ofAttempt then
       if k.att = .sendingInit then some (beginClose { k with att := .idle } .timeout .attempt) else none
     else
       if k.sendParked then some (beginClose { k with sendParked := false } .timeout .sender) else none
+  | .queue m =>
+    match k.st with
+    | .closing | .closed => some (k, [.queueRes .ret])         -- "not sending message, connection is closing"
+    | .connecting => some (k, [.queueRes .err])                -- no writer: ConnectionWriteError, no disconnect
+    | .uninit => none
+    | .connected =>
+      match m with
+      | .ok => some (k, [.wrote, .queueRes .ret])
+      | .block => if k.qParked then none else some ({ k with qParked := true }, [.wrote])
+      | .fail => some (beginCloseQ k .writeError)
+  | .queueTimeout =>
+    if k.qParked then some (beginCloseQ { k with qParked := false } .timeout) else none
   | .restart =>
     if k.origin = .server ∧ k.st = .closed ∧ k.att = .idle ∧ k.closer = .none then
       some ({ k with st := .connecting, att := .opening }, [.st .connecting .unknown])
@@ -248,11 +287,11 @@ def newK (o : Origin) (typF slow : Bool) : K × List Ev :=
   | .incoming =>
     -- accept: CONNECTED is reported, `on_peer_accepted` registers it and waits for the init message
     ({ origin := o, typF := typF, slow := slow, st := .connected, att := .awaitInit, reader := false, sock := true,
-       closer := .none, sendParked := false, registered := true }, [.st .connected .unknown])
+       closer := .none, sendParked := false, qParked := false, registered := true }, [.st .connected .unknown])
   | _ =>
     -- created, registered (peers), `connect()` reports CONNECTING and parks in open_connection
     ({ origin := o, typF := typF, slow := slow, st := .connecting, att := .opening, reader := false, sock := false,
-       closer := .none, sendParked := false, registered := o ≠ .server }, [.st .connecting .unknown])
+       closer := .none, sendParked := false, qParked := false, registered := o ≠ .server }, [.st .connecting .unknown])
 
 structure Conn where
   k : K
